@@ -121,3 +121,7 @@ class OutOfSubset(Exception):
         if node is not None and hasattr(node, 'lineno'):
             msg = f"{msg} (line {node.lineno}: {ast.unparse(node)[:80]})"
         super().__init__(msg)
+
+
+class ClauseNotApplicable(Exception):
+    """a postcondition mentions final_<local> and that local is not bound on this path"""
